@@ -237,7 +237,29 @@ func q(ss []string) []string {
 	return out
 }
 
+// FirstCalls is the menu of the fresh-process call-order check: Create (and what follows it) on a few lists.
+func FirstCalls() []fw.Call {
+	var out []fw.Call
+	for i, c := range []struct {
+		paths []string
+		mv    mvT
+	}{{[]string{"go.mod", "a.go"}, mvs[0]}, {[]string{"a.go", "A.go"}, mvs[0]}, {[]string{"go.mod", "vendor/x/y.go", "sub/go.mod", "sub/z.go"}, mvs[0]}, {[]string{"CON.go"}, mvs[0]}, {[]string{"a.go"}, mvs[len(mvs)-1]}} {
+		i, c := i, c
+		out = append(out, fw.Call{Name: fmt.Sprintf("create(%v,%s@%s)", c.paths, c.mv.path, c.mv.vers), F: func() string {
+			scratch, err := os.MkdirTemp("/dev/shm", "verif-first-")
+			if err != nil {
+				return "no scratch"
+			}
+			defer os.RemoveAll(scratch)
+			msg, created := one(scratch, c.paths, make([]zipref.Mode, len(c.paths)), zipx.GoMods[0], c.mv, "honest", i%memfile.Shapes)
+			return fmt.Sprint(msg, created)
+		}})
+	}
+	return out
+}
+
 func Run(r *fw.Run) {
+	defer fw.FirstCallOrders(r, r.ID, FirstCalls(), nil)
 	scratch := r.Scratch()
 	pool2 := zipx.Pool
 	pool3 := zipx.Pool
